@@ -93,6 +93,15 @@ def new_pattern(rng, api, tracks, lines, attached, shrink=True):
                 n.module = rng.randrange(65536) if style == 3 else 0
                 n.ctl = rng.randrange(65536)
                 n.val = (ln << 8 | tr) & 0xFFFF
+    if rng.random() < 0.15:
+        # contents and header fields as FILES carry them (legal there, never produced by the constructors): velocity bytes above
+        # 129 in some cells, an icon that is not 32 bytes, given by plain assignment
+        import struct as _struct
+        for _k in range(rng.randint(1, 3)):
+            n = p.data[rng.randrange(lines)][rng.randrange(tracks)]
+            n.raw_data = _struct.pack("<BBHHH", rng.choice([0, 1, 60, 128]), rng.randint(130, 255), rng.randrange(65536), rng.randrange(65536), rng.randrange(65536))
+        if rng.random() < 0.5:
+            p.icon = bytes(rng.choice([0, 16, 31, 33]))
     if shrink and rng.random() < 0.12 and (lines > 1 or tracks > 1):
         # the pattern is made smaller after its notes exist ("edit only the first N lines"): the cells beyond stay where they are
         if lines > 1 and rng.random() < 0.6:
